@@ -5,7 +5,8 @@ set -u
 PATCH="$(realpath "$1")"; ID="$2"; TIER="${3:-quick}"
 cd /repo || exit 2
 if ! git diff --quiet; then echo "/repo has uncommitted changes; refusing" >&2; exit 2; fi
-trap 'git -C /repo checkout -- . >/dev/null 2>&1' EXIT
+EV="/verif/evidence/$ID.json"; BK="$(mktemp)"; [ -f "$EV" ] && cp "$EV" "$BK"
+trap 'git -C /repo checkout -- . >/dev/null 2>&1; [ -s "$BK" ] && cp "$BK" "$EV"; rm -f "$BK"' EXIT
 git apply "$PATCH" || { echo "patch does not apply" >&2; exit 2; }
 cd /verif && ./check "$ID" --tier "$TIER" 2>&1 | grep -E "^(VIOLATION|KNOWN-FINDING|NOTE|\[C|MACHINERY|  detail)" | cut -c1-400 | head -${LINES_MAX:-12}
 echo "exit=${PIPESTATUS[0]}"
